@@ -13,7 +13,8 @@ RULE = ("micro APIs over a grid: (response-type form) x (metadata-type form) wit
         "a second long-running rpc sharing the response type with another metadata type, "
         "the asyncio REST transport (rest_async_io_enabled; packages v2 / v1beta1; with and without Operations http rules), "
         "service-YAML http rules for the operations service with additional bindings (operation names matching each binding in turn), "
-        "selective generation with generate_omitted_as_internal (every LRO rpc internal; one internal and one public), "
+        "selective generation in omit mode keeping only the LRO rpcs (response / metadata on either side of the package boundary, "
+        "the metadata message referenced by nothing else), selective generation with generate_omitted_as_internal (every LRO rpc internal; one internal and one public), "
         "another package, missing, unknown (relative, qualified, leading dot), plus un-annotated Operation methods, three packages. "
         "Schema level: every sampled grid cell is decided by the real API.build and by the model (T2). End to end: a slice of the "
         "cells is generated, the emitted from_gapic arguments and operations-client properties are read with ast (T1), and the "
@@ -210,7 +211,7 @@ def client_names(cell):
 def service_yaml(cell, pkg):
     """Option file of the cell: http rules for the operations service (the REST operations client must use them) and/or
     selective generation with generate_omitted_as_internal (every rpc but the listed ones becomes an internal method)."""
-    if not cell.get("ops_http") and not cell.get("internal") and not cell.get("rest_async"):
+    if not cell.get("ops_http") and not cell.get("internal") and not cell.get("rest_async") and not cell.get("selective"):
         return None
     sy = {"type": "google.api.Service", "config_version": 3, "name": "jobs.example.com", "apis": [{"name": pkg + ".Jobs"}]}
     if cell.get("ops_http"):
@@ -226,6 +227,11 @@ def service_yaml(cell, pkg):
     if cell.get("internal"):
         public = ["Peek"] + (["Restart"] if cell["internal"] == "some" else [])
         py["common"] = {"selective_gapic_generation": {"methods": [f"{pkg}.Jobs.{m}" for m in public], "generate_omitted_as_internal": True}}
+    elif cell.get("selective"):
+        # selective generation proper (omit mode): only the long-running rpcs are kept; Peek (and Kick) are dropped, and with
+        # them every message that nothing kept refers to -- the LRO types of the kept rpcs must survive the pruning
+        kept = ["Start"] + (["Again"] if (cell["annotated"] and cell.get("twin_meta")) else [])
+        py["common"] = {"selective_gapic_generation": {"methods": [f"{pkg}.Jobs.{m}" for m in kept]}}
     if cell.get("rest_async"):
         # the asyncio REST transport (rest_asyncio.py) is emitted only with this experimental switch
         py["experimental_features"] = {"rest_async_io_enabled": True}
@@ -1161,6 +1167,7 @@ def e2e_cells(ctx, n):
         {"pkg_index": 2, "resp": "fq_same", "meta": "rel_imported", "annotated": True, "order": "svc-first", "internal": "some", "raw_sibling": True},
         {"pkg_index": 1, "resp": "fq_subpkg_imported", "meta": "rel_subpkg_notimported", "annotated": True, "order": "types-first"},
         {"pkg_index": 2, "resp": "empty", "meta": "rel_same", "annotated": True, "order": "svc-first", "twin_meta": "fq_notimported"},
+        {"pkg_index": 1, "resp": "fq_otherpkg", "meta": "rel_notimported", "annotated": True, "order": "types-middle", "selective": True},
         {"pkg_index": 1, "resp": "fq_imported", "meta": "rel_same", "annotated": True, "order": "types-first", "rest_async": True, "ops_http": "multi"},
         {"pkg_index": 0, "resp": "empty", "meta": "rel_nested_imported", "annotated": True, "order": "types-first", "flat": "operation_async"},
         {"pkg_index": 0, "resp": "rel_notimported", "meta": "fq_same", "annotated": True, "order": "svc-first"},
@@ -1185,6 +1192,8 @@ def e2e_cells(ctx, n):
             c["internal"] = r.choice(["all", "some"])
         if r.random() < 0.3:
             c["rest_async"] = True
+        if r.random() < 0.3 and not c.get("internal"):
+            c["selective"] = True
         if r.random() < 0.3 and not c.get("internal"):
             c["twin_meta"] = r.choice(["rel_same", "rel_imported", "fq_notimported", "empty", "fq_nested"])
         if c not in cells:
@@ -1241,7 +1250,7 @@ def run(ctx):
     t = threading.Thread(target=schema)
     t.start()
     try:
-        run_e2e(ctx, e2e_cells(ctx, ctx.n(25, 110)), tier_all=not ctx.quick())
+        run_e2e(ctx, e2e_cells(ctx, ctx.n(27, 110)), tier_all=not ctx.quick())
     finally:
         t.join()
     if errs:
